@@ -241,6 +241,18 @@ Theorem C03_forget_fixed : forall d,
 Proof. exact forget_fixed. Qed.
 Print Assumptions C03_forget_fixed.
 
+(* ... so the guard of C03_roundtrip_document_closed is exact: an accepted
+   document round-trips (up to positions) if and only if it carries no member
+   description.  Nothing else ever breaks the round trip, and every member
+   description does. *)
+Theorem C03_roundtrip_iff : forall fl fl' s d ind,
+  parse_document fl s = Ok d -> all_ws ind ->
+  no_location fl' = true -> allow_type_system fl' = true ->
+  (fragment_variables fl = true -> fragment_variables fl' = true) ->
+  (parse_document fl' (print_ast ind true d) = Ok (strip_doc d) <-> no_member_descriptions d).
+Proof. exact roundtrip_iff. Qed.
+Print Assumptions C03_roundtrip_iff.
+
 (* the idempotence law with no side hypothesis on the document:
    print (parse (print d)) = print d for every accepted d and every indent *)
 Theorem C03_idempotent_total : forall fl fl' s d d' ind,
